@@ -184,6 +184,9 @@ def check(ctx):
         _check_write_routine(ctx, W)
         _check_flag_flow(ctx, cg, W)
     _check_isolation(ctx, cg, writers)
+    # one file per key also needs the key -> file name mapping to be injective (shared with C16-R2)
+    from . import c16
+    c16.check_key_mapping(ctx, repo, "C17-R4")
 
 
 # ------------------------------------------------------------------ R1
@@ -489,6 +492,7 @@ SEEDS = [
          "        with open(os.path.join(self.root_path, 'INDEX'), 'a') as idx:\n            idx.write(file_name)\n        contents, memory_usage = self.process_contents(new_file_contents)\n        self.update_file_futures_and_memory(file_name, memory_usage=memory_usage)\n        return contents\n\n    def update_file_access_time", rule="C17-R4"),
     Seed("remove-before-write", "fault", "db/file_cache", "        os.makedirs(write_path, exist_ok=True)\n",
          "        os.makedirs(write_path, exist_ok=True)\n        if os.path.exists(write_path + '.tmp'):\n            os.remove(write_path + '.tmp')\n", rule="C17-R4"),
+    Seed("sanitised-key", "fault", "db/helpers", "def key_to_file_path(key):\n    return key", "def key_to_file_path(key):\n    return key.replace(':', '_')", rule="C17-R4"),
     Seed("refactor-rename-file-var", "refactor", "db/file_cache",
          "'wb') as f:\n            f.write(new_file_contents)\n            if use_fsync:\n                f.flush()\n                os.fsync(f.fileno())",
          "'wb') as out:\n            out.write(new_file_contents)\n            if use_fsync:\n                out.flush()\n                fd = out.fileno()\n                os.fsync(out.fileno())"),
